@@ -368,8 +368,8 @@ class AuditFirstConn(Harness):
     def check(self, inp, obs):
         st = status_of(obs['ret'])
         yield 'documented-status', st is not None
-        if st is not None and self.sshv == 2 and not self.framed:
-            # raw garbage of < 61 bytes can never be a complete KEXINIT
+        if st is not None and self.sshv == 2 and (not self.framed or self.n < 60):
+            # fewer than 61 payload bytes can never be a complete KEXINIT (16 cookie + 10 length fields + 5)
             yield 'malformed-is-status-1', st == 1
             yield 'malformed-no-report', not obs['alg']
         if st is not None and st != 1:
@@ -380,6 +380,38 @@ class AuditFirstConn(Harness):
         if isinstance(r, Exc):
             return 'audit(sshv=%d):%s' % (self.sshv, r.type)
         return label
+
+
+class VersionFallback(Harness):
+    """default options (SSH-1 and SSH-2 enabled): a peer that answers every attempt with 'Protocol major versions differ.' makes the audit fall back to SSH-1
+    exactly once: at most two connections, documented status, no report."""
+    prop, ob = PROP, 'O7'
+    width = 64
+
+    def __init__(self, n):
+        self.n = n
+        self.name = 'version-fallback-%d' % n
+
+    def params(self):
+        return {'n': self.n}
+
+    def inputs(self):
+        t = zx.fresh_str('t', self.n, ((97, 122),))
+        return {'tail': t.encode('ascii') if not isinstance(t, str) else t.encode()}
+
+    def run(self, M, inp):
+        if zx.active():
+            zx.cur().stdout = []
+        msg = b'Protocol major versions differ.'
+        conns = [AE.Conn([BANNER, msg + (b'\n' if i == 0 else inp['tail'] + b'\n')], 'close') for i in range(5)]
+        r = AE.run_audit(M, conns, ssh1=True, ssh2=True)
+        return {'ret': r['ret'], 'alg': has_alg_lines(r['lines']), 'nconn': len([c for c in r['net'].made if c.recv_calls > 0 or c.connected_to])}
+
+    def check(self, inp, obs):
+        st = status_of(obs['ret'])
+        yield 'documented-status', st is not None
+        yield 'at-most-two-connections', obs['nconn'] <= 2
+        yield 'no-report', not obs['alg']
 
 
 class AuditProbe(Harness):
@@ -512,6 +544,8 @@ def tasks(tier):
         T.append(AuditFirstConn(n, 1, 'close', False, 'lower'))
     for n in ((0, 7, 12) if q else range(0, 25, 2)):
         T.append(AuditFirstConn(n, 1, 'close', True))
+    for n in ((0, 1) if q else (0, 1, 2)):
+        T.append(VersionFallback(n))
     for sc in ('hostkey-rsa', 'hostkey-ed25519', 'hostkey-via-gex', 'gexgroup', 'probe-kexinit'):
         for n in ((0, 4, 8) if q else (0, 3, 4, 7, 8, 12, 16)):
             T.append(AuditProbe(sc, n))
@@ -533,6 +567,8 @@ def harness_by_name(name, params):
         return RecvReply(params['n'], params['parse_size'], params['ptype'])
     if k.startswith('gexinit'):
         return GexInit(params['n'], params['ptype'])
+    if k.startswith('version-fallback'):
+        return VersionFallback(params['n'])
     if k.startswith('audit-first'):
         return AuditFirstConn(params['n'], params['sshv'], params['end'], params['framed'], params.get('dom', 'any'))
     if k.startswith('audit-probe'):
